@@ -155,6 +155,12 @@ def reflect(pkg, model, order):
                                 bad.append(('unset-read:nullable', 'unset nullable field %s.%s reads %r' % (d.name, f.name, got)))
                         elif f.default == NODEF:
                             bad.append(('unset-read:required', 'unset required field %s.%s reads %r instead of raising AttributeError' % (d.name, f.name, got)))
+                        elif isinstance(f.default, TagLit):
+                            # a tag default reads as the ready instance of that tag, whatever the order of the two classes in the module
+                            if not isinstance(got, bb.Union) or getattr(got, '_tag', None) != f.default.tag:
+                                bad.append(('unset-read:tag-default', 'unset field %s.%s (default tag %s) reads %r' % (d.name, f.name, f.default.tag, got)))
+                        elif got is None or (isinstance(f.default, (bool, int, str)) and not isinstance(f.default, float) and type(got) is type(f.default) and got != f.default):
+                            bad.append(('unset-read:default-value', 'unset field %s.%s (default %r) reads %r' % (d.name, f.name, f.default, got)))
                     except AttributeError:
                         if nullable or f.default != NODEF:
                             bad.append(('unset-read:%s' % ('nullable' if nullable else 'defaulted'), 'unset optional field %s.%s raised AttributeError' % (d.name, f.name)))
